@@ -193,28 +193,40 @@ func VerifC08_DecoderTotalGenCode() {
 }
 
 // truncations and single-byte corruptions of a valid encoding
-func VerifC08_TruncateCorrupt() {
+func validEncoding() []byte {
 	m := symMeta()
 	data := rt.BytesN("data", 0, 2)
 	w, _ := NewWrapper("db:k", m, dsd.JSON, data)
 	stored, err := w.MarshalRecord(w)
 	rt.Assert(err == nil, "trunc/marshal-ok")
-	if err != nil {
-		return
-	}
-	// truncation at every position
+	return stored
+}
+
+func VerifC08_Truncate() {
+	stored := validEncoding()
 	cut := rt.Len("cut", 0, len(stored))
-	_, _ = NewRawWrapper("db", "k", stored[:cut])
-	// corruption of one byte to an arbitrary value
+	w, err := NewRawWrapper("db", "k", stored[:cut])
+	if err == nil {
+		rt.Assert(w != nil, "trunc/ok-nonnil")
+		rt.Assert(len(w.Data) <= cut, "trunc/data-within-input")
+	}
+	if cut < 37 {
+		rt.Assert(err != nil, "trunc/incomplete-meta-errors")
+	}
+	rt.Reach("trunc-end")
+}
+
+func VerifC08_Corrupt() {
+	stored := validEncoding()
 	pos := rt.Len("pos", 0, len(stored)-1)
 	mut := append([]byte{}, stored...)
 	mut[pos] = rt.U8("mut")
 	w2, err2 := NewRawWrapper("db", "k", mut)
 	if err2 == nil {
-		rt.Assert(w2 != nil, "trunc/ok-nonnil")
-		rt.Assert(len(w2.Data) <= len(mut), "trunc/data-within-input")
+		rt.Assert(w2 != nil, "corrupt/ok-nonnil")
+		rt.Assert(len(w2.Data) <= len(mut), "corrupt/data-within-input")
 	}
-	rt.Reach("trunc-end")
+	rt.Reach("corrupt-end")
 }
 
 // ParseKey
